@@ -31,6 +31,9 @@ CONSTANTS Issuers,       \* subset of {"trusted","trusted_inter","otherca","self
           Roles,         \* subset of {"server","client"}: the role of the PEER being verified
           Modes,         \* subset of {"receptor","dns","dns_noname"}
           StreamSrcs,    \* set of node ids (token sequences) for the stream-listener family
+          KF_DigestCachedAcrossCalls, \* FALSE: the code.  TRUE: the counter-example variant in which one verify-function
+                         \* instance keeps the digest of the FIRST certificate it saw (digest cache hoisted out of the
+                         \* per-call scope); it must FAIL HistoryIndependent (TLSVerify_digestcache.cfg)
           KF_ColonSplit, \* FALSE: the code as repaired (8d11383).  TRUE: the counter-example variant - the listener
                          \* splits "node:service" at the first ':' (finding C09:stream-name-colon-split); it must FAIL
                          \* AcceptImpliesAll / CodeWithinProp / StreamBindsSource (TLSVerify_colonsplit.cfg)
@@ -124,7 +127,7 @@ Base(fam, is, va, us, ns, pl, ro, mo) ==
   [fam |-> fam, issuer |-> is, validity |-> va, usage |-> us, names |-> ns, pins |-> pl, role |-> ro, mode |-> mo]
 
 TableVec(b) ==
-  b @@ [src |-> <<>>, namekind |-> "-", certnames |-> <<>>,
+  b @@ [src |-> <<>>, namekind |-> "-", certnames |-> <<>>, seqpins |-> <<>>, calls |-> <<>>,
         conds |-> Conds(b), nfail |-> Cardinality(Failed(b)), only |-> OnlyFailure(b),
         pins_wellformed |-> PinsWellFormed(b.pins), pins_configurable |-> PinsConfigurable(b.pins),
         expect |-> [prop |-> PropAccept(b), code |-> CodeAccept(b)]]
@@ -145,7 +148,7 @@ StreamVec(is, va, us, src, k) ==
       other  == chain /\ time /\ usage
       nfailp == Cardinality({c \in {1, 2, 3, 4} : ~(<<chain, time, usage, pname>>[c])})
   IN [fam |-> "stream", issuer |-> is, validity |-> va, usage |-> us, names |-> "-", pins |-> <<>>,
-      role |-> "client", mode |-> "receptor", src |-> src, namekind |-> k, certnames |-> names,
+      role |-> "client", mode |-> "receptor", src |-> src, namekind |-> k, certnames |-> names, seqpins |-> <<>>, calls |-> <<>>,
       conds |-> [chain |-> chain, time |-> time, usage |-> usage, pin |-> TRUE, name |-> pname],
       nfail |-> nfailp,
       only |-> IF nfailp # 1 THEN "-" ELSE IF ~chain THEN "chain" ELSE IF ~time THEN "time" ELSE IF ~usage THEN "usage" ELSE "name",
@@ -156,7 +159,49 @@ StreamVectors ==
   { StreamVec(is, va, us, src, k) :
       is \in Issuers, va \in Validities, us \in Usages, src \in StreamSrcs, k \in StreamNameKinds }
 
-AllVectors == TableVectors \cup StreamVectors
+\* ---------------------------------------------------------------- history independence (family "seq")
+\* In production one verify-function instance / one tls.Config lives for many connections
+\* (PrepareTLSServerConfig builds one function per tls-server entry and GetServerTLSConfig's Clone copies
+\* that very function value; a client configuration is reused for redials).  The decision must be a
+\* FUNCTION of (certificate, configuration): the verdict of the k-th call on an instance is
+\* Accept(calls[k], cfg) whatever was presented before.
+\* Certificates: A and B satisfy every condition other than the pin (trusted chain, valid, usable for
+\* both roles, carrying the expected name as receptor name and dNSName) and differ only in identity;
+\* X differs from B in the chain only (other authority).  A pin names a digest algorithm and the
+\* certificate it is the digest of.
+SeqCerts == {"A", "B", "X"}
+SeqOtherOK(c) == c \in {"A", "B"}
+Pin(alg, c) == [alg |-> alg, of |-> c]
+SeqPinLists == {<<>>, <<Pin("256", "A")>>, <<Pin("512", "A")>>, <<Pin("256", "A"), Pin("512", "B")>>,
+                <<Pin("512", "B"), Pin("256", "A")>>, <<Pin("256", "A"), Pin("512", "A")>>}
+SeqPinOK(c, pins) == pins = <<>> \/ \E i \in 1..Len(pins) : pins[i].of = c
+SeqAccept(c, pins) == SeqOtherOK(c) /\ SeqPinOK(c, pins)          \* the table's verdict for one call
+
+\* the counter-example variant: digests are computed lazily per algorithm and then kept by the instance.
+\* cache[alg] is the certificate whose digest of that algorithm the instance holds ("-" = none yet).
+\* The pin loop runs before chain verification, on every call of an instance that has pins.
+Algs == {"256", "512"}
+CacheAfter(calls, pins, k) ==       \* cache after the first k calls
+  [a \in Algs |-> IF k = 0 \/ ~\E i \in 1..Len(pins) : pins[i].alg = a THEN "-" ELSE calls[1]]
+CachedPinOK(calls, pins, k) ==
+  pins = <<>> \/ \E i \in 1..Len(pins) :
+     LET held == CacheAfter(calls, pins, k - 1)[pins[i].alg] IN
+       pins[i].of = (IF held = "-" THEN calls[k] ELSE held)
+ModelVerdict(calls, pins, k) ==
+  IF KF_DigestCachedAcrossCalls THEN SeqOtherOK(calls[k]) /\ CachedPinOK(calls, pins, k)
+  ELSE SeqAccept(calls[k], pins)
+
+CallSeqs == UNION { [1..n -> SeqCerts] : n \in 1..3 }
+SeqVec(ro, mo, pins, cs) ==
+  [fam |-> "seq", issuer |-> "-", validity |-> "-", usage |-> "-", names |-> "-", pins |-> <<>>, role |-> ro, mode |-> mo,
+   src |-> <<>>, namekind |-> "-", certnames |-> <<>>, seqpins |-> pins,
+   calls |-> [k \in 1..Len(cs) |-> [cert |-> cs[k], accept |-> ModelVerdict(cs, pins, k),
+                                     pinok |-> SeqPinOK(cs[k], pins), otherok |-> SeqOtherOK(cs[k])]],
+   conds |-> [chain |-> TRUE, time |-> TRUE, usage |-> TRUE, pin |-> TRUE, name |-> TRUE], nfail |-> 0, only |-> "-",
+   pins_wellformed |-> TRUE, pins_configurable |-> TRUE, expect |-> [prop |-> TRUE, code |-> TRUE]]
+SeqVectors == { SeqVec(ro, mo, pins, cs) : ro \in Roles, mo \in Modes, pins \in SeqPinLists, cs \in CallSeqs }
+
+AllVectors == TableVectors \cup StreamVectors \cup SeqVectors
 
 \* ---------------------------------------------------------------- state machine: one state per vector
 VARIABLE vec
@@ -207,6 +252,17 @@ StreamBindsSource ==
 StreamCodeIsProp ==
   IsStream => (vec.expect.code <=> vec.expect.prop)
 
+\* the verdict is a function of (certificate, configuration): every call of an instance gets the table's verdict,
+\* and presenting the same certificate twice gives the same verdict
+IsSeq == vec.fam = "seq"
+HistoryIndependent ==
+  IsSeq => /\ \A k \in 1..Len(vec.calls) : vec.calls[k].accept = SeqAccept(vec.calls[k].cert, vec.seqpins)
+           /\ \A j, k \in 1..Len(vec.calls) : vec.calls[j].cert = vec.calls[k].cert => vec.calls[j].accept = vec.calls[k].accept
+\* an unpinned certificate is refused by a pinned instance also after a pinned one was accepted
+PinnedThenUnpinnedRefused ==
+  IsSeq /\ vec.seqpins # <<>> =>
+     \A k \in 2..Len(vec.calls) : vec.calls[k - 1].accept /\ ~vec.calls[k].pinok => ~vec.calls[k].accept
+
 \* ---------------------------------------------------------------- anti-vacuity witnesses (each must be violated)
 W_NoAccept        == ~(IsTable /\ vec.expect.code)
 W_NoOnlyChain     == ~(IsTable /\ vec.only = "chain")
@@ -218,6 +274,12 @@ W_NoStricter      == ~(IsTable /\ vec.expect.prop /\ ~vec.expect.code)
 W_NoSeveralAccept == ~(IsTable /\ vec.expect.code /\ vec.names = "several" /\ Len(vec.pins) >= 2)
 W_NoStreamAccept  == ~(IsStream /\ vec.expect.code /\ vec.expect.prop)
 W_NoStreamOnlyName == ~(IsStream /\ vec.only = "name")
+W_NoPinnedThenUnpinned == ~(IsSeq /\ Len(vec.calls) >= 2 /\ vec.calls[1].accept /\ vec.calls[1].pinok /\ vec.seqpins # <<>>
+                              /\ vec.calls[2].otherok /\ ~vec.calls[2].pinok /\ ~vec.calls[2].accept)
+W_NoUnpinnedThenPinned == ~(IsSeq /\ Len(vec.calls) >= 2 /\ vec.calls[1].otherok /\ ~vec.calls[1].pinok /\ vec.calls[2].accept
+                              /\ vec.seqpins # <<>>)
+W_NoTwoAlgs            == ~(IsSeq /\ Len(vec.seqpins) = 2 /\ Len(vec.calls) = 3 /\ vec.calls[1].accept /\ vec.calls[2].accept
+                              /\ vec.calls[1].cert # vec.calls[2].cert /\ ~vec.calls[3].accept /\ vec.calls[3].otherok)
 \* a source id containing ':' is accepted with its own full name, and its prefix is a refused near miss
 W_NoColonSrcAccept == ~(IsStream /\ HasColon(vec.src) /\ vec.namekind = "src" /\ vec.expect.code)
 W_NoColonPrefixRefused == ~(IsStream /\ HasColon(vec.src) /\ vec.namekind = "codeprefix" /\ vec.only = "name" /\ ~vec.expect.code)
